@@ -10,7 +10,7 @@
     suite's choice of WHAT to serialise, WHERE to cut and WHICH message to
     check), Go's crypto/sha*, crypto/cipher and crypto/x509 for H, AEAD open and
     key parsing. *)
-From CSS Require Import Lib.Base Lib.Cases Model.Manifest Model.ManifestOrder.
+From CSS Require Import Lib.Base Lib.Cases Model.Manifest Model.ManifestOrder Model.ManifestRead.
 From Coq Require Strings.Byte.
 
 (** Compact byte-string literals: the shards write [zs [x5f; x4b; ...]] with the
@@ -54,6 +54,28 @@ Definition tbl_env (parsed : option pman) (vt : list (bytes * bool)) : env := {|
   M := pman; PK := unit; SK := unit;
   ser := pm_ser;
   parse := fun _ _ _ => parsed;
+  prep := fun _ _ m => m;
+  keysig_off := fun m => Z.to_nat (pm_keysig m);
+  pmse_off := fun m => Z.to_nat (pm_pmse m);
+  pmse_ks_off := fun m => Z.to_nat (pm_pmseks m);
+  pkhash := pm_pkhash;
+  store := fun _ _ m _ _ => m;
+  key_of := fun _ => tt;
+  sig_of := fun _ => mk_sig 0 0 [];
+  pub := fun _ => tt;
+  sign_raw := fun _ _ _ => None;
+  verify_raw := fun _ _ _ msg => match lookup_bytes msg vt with Some b => b | None => false end
+|}.
+
+(** The environment of a verify-FILE case: [parsed] is what fiano's reader gave the
+    harness on exactly the bytes [file] (DetectBGV + Manifest.ReadFrom called by the
+    harness on the whole file, NOT through NewKM/NewBPM); the table answers for
+    these bytes only, so a constructor that hands anything else to the codec (a
+    prefix, a trimmed copy: Model/ManifestRead.v) does not get this answer. *)
+Definition tbl_env_at (file : bytes) (parsed : option pman) (vt : list (bytes * bool)) : env := {|
+  M := pman; PK := unit; SK := unit;
+  ser := pm_ser;
+  parse := fun _ _ f => if zlist_eqb f file then parsed else None;
   prep := fun _ _ m => m;
   keysig_off := fun m => Z.to_nat (pm_keysig m);
   pmse_off := fun m => Z.to_nat (pm_pmse m);
@@ -121,7 +143,8 @@ Inductive case : Type :=
    stored in the output *)
 | CSignEntry (g d : Z) (m : pman) (sname hname : bytes) (signable : list Z)
              (r : obs unit) (signed_len : Z) (stored : Z)
-(* NewKM/NewBPM + VerifyKM/VerifyBPM on a file *)
+(* NewKM/NewBPM + VerifyKM/VerifyBPM on a file; [parsed] = fiano's reader on the whole
+   file, obtained by the harness without the suite's constructors *)
 | CVerifyFile (d : Z) (file : bytes) (parsed : option pman) (vt : list (bytes * bool)) (r : obs unit)
 (* VerifyKM/VerifyBPM on a BootGuard value with an arbitrary Version *)
 | CVerifyStruct (version d : Z) (m : pman) (vt : list (bytes * bool)) (r : obs unit)
@@ -221,9 +244,9 @@ Definition check (c : case) : bool :=
       | _, _ => false
       end
   | CVerifyFile d file parsed vt r =>
-      let E := tbl_env parsed vt in
+      let E := tbl_env_at file parsed vt in
       let d' := doc_of_Z d in
-      obs_match unit_eqb r (verify_file E d' file) &&
+      obs_match unit_eqb r (verify_file_via E (fun f => f) d' file) &&
       match detect file, parsed with
       | Some g, Some m => covered E (verified_message E g d' m) vt
       | _, _ => true
